@@ -177,6 +177,11 @@ def apply_resultpath(input, result, path="$"):
         if len(keys) == 0:
             return default
         key = keys.pop(0)
+        # Update a shallow copy of each container on the path, so that the raw
+        # input itself is left as it was (it is needed again if the state fails
+        # after its result has been placed and is then retried or caught).
+        if isinstance(target, (list, dict)):
+            target = copy.copy(target)
         if isinstance(target, list):
             try:
                 i = int(key)
